@@ -66,7 +66,7 @@ def generate(tier, seed):
             d["nugget"] = 0.0
             d["len_scale"] = round(float(rng.uniform(0.8, 1.5)), 3)
             cases.append(("fourier", {"model": d, "cseed": int(rng.integers(1 << 30))}))
-    for name, dim in (("Gaussian", 2), ("Exponential", 1), ("Exponential", 3), ("Matern", 2), ("Spherical", 3), ("TPLGaussian", 2)):
+    for name, dim in (("Gaussian", 2), ("Exponential", 1), ("Exponential", 2), ("Exponential", 3), ("Matern", 2), ("Spherical", 3), ("TPLGaussian", 2)):
         d = common.draw_model(rng, name, dim, "interior", aniso=True, nugget=False)
         d["nugget"] = float(rng.choice([0.0, 0.4]))
         cases.append(("end_to_end", {"model": d, "cseed": int(rng.integers(1 << 30)), "S": {"quick": 600, "thorough": 3000}[tier]}))
@@ -171,7 +171,7 @@ def check_formula(ctx, c):
         ctx.event("field_formula_points", u.size)
         if u.size >= 9:
             m, sd = float(np.mean(noise)), math.sqrt(d["nugget"])
-            if abs(m) > 7 * sd / math.sqrt(u.size) or not (0.05 * d["nugget"] < float(np.var(noise)) < 6.0 * d["nugget"]):
+            if not abs(m) <= 7 * sd / math.sqrt(u.size) or not (0.05 * d["nugget"] < float(np.var(noise)) < 6.0 * d["nugget"]):
                 ctx.fail(dict(mech, what="nugget-part"), f"field minus spectral sum: mean {m:.3f}, var {np.var(noise):.3f}; nugget {d['nugget']}")
         return
     kmax = common.maxabs(k)
@@ -225,6 +225,11 @@ def check_wave_vectors(ctx, c):
                 with np.errstate(all="ignore"):
                     g = gs.field.generator.RandMeth(model, mode_no=nmodes, seed=int(rng.integers(1, 1 << 30)), sampling="auto" if inversion else "mcmc")
             k = np.asarray(g._cov_sample)
+            if not np.all(np.isfinite(k)):
+                ctx.fail(dict(mech, what="non-finite-wave-vector-sampled", mode_no=nmodes),
+                         f"{d['name']} {d.get('opt')} dim {dim} N={nmodes}: {int(np.sum(~np.isfinite(k)))} non-finite wave-vector components "
+                         f"(every field of this generator is NaN)")
+                return
             kmax = max(kmax, common.maxabs(k))
             cs[s] = np.mean(np.cos(k.T @ hiso), axis=0)
             zs.append(np.asarray(g._z_1))
@@ -244,7 +249,7 @@ def check_wave_vectors(ctx, c):
         ctx.resolve(f"wave_vector_resolution_{'inv' if inversion else 'mcmc'}", float(np.max(band)))
         worst = int(np.argmax(np.abs(bias) - allowed))
         results[nmodes] = float(np.max(np.abs(bias)))
-        if np.any(np.abs(bias) > allowed):
+        if not np.all(np.abs(bias) <= allowed):
             m2 = dict(mech, what="E[(1/N) sum cos(k.h)]!=rho(h)", mode_no=nmodes)
             if (not inversion) and numeric and kmax * ell > 1e4:
                 m2["mechanism"] = "randmeth/mcmc/numerical-spectrum/runaway"
@@ -274,7 +279,7 @@ def check_wave_vectors(ctx, c):
         phi = ndtr(z)
         dist = max(float(np.max(np.abs(ecdf_hi - phi))), float(np.max(np.abs(ecdf_lo - phi))))
         ctx.resolve("amplitude_dkw_resolution", eps)
-        if dist > eps:
+        if not dist <= eps:
             ctx.fail(dict(mech, what="amplitudes-not-standard-normal"), f"sup |F_n - Phi| = {dist:.5f} > {eps:.5f} (n={nz})")
             return
     if len(results) == 2 and not inversion:
@@ -318,10 +323,10 @@ def check_fourier(ctx, c):
         smooth = False
     if d["name"] == "Integral" and d.get("opt", {}).get("nu", 1) < 4.0:
         smooth = False
-    if (smooth and e2 > e1 * 1.05 + 1e-6) or (not smooth and e2 > 1.5 * e1 + 0.03):
+    if (smooth and not e2 <= e1 * 1.05 + 1e-6) or (not smooth and not e2 <= 1.5 * e1 + 0.03):
         ctx.fail(dict(mech, what="fourier-error-grows-with-mode-number"), f"covariance error {e1:.4f} (n={n1}) -> {e2:.4f} (n={n2})")
         return
-    if k2 >= 6.0 and smooth and (e2 > 0.02 or v2 > 0.02):
+    if k2 >= 6.0 and smooth and not (e2 <= 0.02 and v2 <= 0.02):
         ctx.fail(dict(mech, what="fourier-covariance!=model-covariance"),
                  f"{d['name']} dim {dim}: period 10 l, {n2} modes per axis (k_max l = {k2:.1f}): covariance error {e2:.4f} var, variance error {v2:.4f}")
 
@@ -345,25 +350,28 @@ def check_end_to_end(ctx, c):
     ctx.cell(f"end_to_end/{d['name']}/dim{dim}")
     ctx.event("ensemble_statistics", 3 * x.shape[1])
     mech = {"model": d["name"], "dim": dim}
+    if not np.all(np.isfinite(vals)):
+        ctx.fail(dict(mech, what="non-finite-field"), f"{int(np.sum(~np.all(np.isfinite(vals), axis=1)))} of {S} generated fields contain NaN/inf")
+        return
     sill = d["var"] + d["nugget"]
     rho = np.array([float(ocov.correlation(d, v)) for v in np.linalg.norm(_iso(d, lags), axis=0)])
     bias_allow = (0.0 if model.has_ppf else 2.0 / math.sqrt(N)) * d["var"]
     # mean
     se = math.sqrt(sill / S)
-    if np.any(np.abs(np.mean(vals, axis=0)) > 7 * se):
+    if not np.all(np.abs(np.mean(vals, axis=0)) <= 7 * se):
         ctx.fail(dict(mech, what="ensemble-mean!=0"), f"means {np.mean(vals, axis=0)} (7 sigma = {7*se:.4f})")
         return
     # variance (field values are sums of N terms: near-Gaussian; fourth moment <= 3 sill^2 (1 + 1/N))
     v = np.var(vals, axis=0, ddof=1)
     band = 7 * sill * math.sqrt(2.2 / S)
     ctx.resolve("end_to_end_variance_band", band / sill)
-    if np.any(np.abs(v - sill) > band):
+    if not np.all(np.abs(v - sill) <= band):
         ctx.fail(dict(mech, what="pointwise-variance!=var+nugget"), f"variances {v}, sill {sill} (+-{band:.4f})")
         return
     # covariance with the base point
     cvs = np.array([np.mean(vals[:, 0] * vals[:, j]) for j in range(1, x.shape[1])])
     band_c = 7 * sill * math.sqrt(2.2 / S) + bias_allow
-    if np.any(np.abs(cvs - d["var"] * rho) > band_c):
+    if not np.all(np.abs(cvs - d["var"] * rho) <= band_c):
         j = int(np.argmax(np.abs(cvs - d["var"] * rho)))
         ctx.fail(dict(mech, what="ensemble-covariance!=model-covariance"), f"lag #{j}: {cvs[j]:.4f} vs {d['var'] * rho[j]:.4f} (+-{band_c:.4f})")
 
